@@ -4,6 +4,7 @@
 package main
 
 import (
+	"sync"
 	"bufio"
 	"encoding/hex"
 	"encoding/json"
@@ -31,6 +32,37 @@ type Ctx struct {
 }
 
 func (c *Ctx) thorough() bool { return c.tier == "thorough" }
+
+// held outputs: byte slices the library RETURNED (signatures, reconstructed signatures, encodings, digests) are the
+// caller's. A sample of them is kept - uncopied - together with their value at the time they were returned, and
+// compared again when the generator has finished (a result handed out from a pool, a cache or internal state
+// changes when the library is used again).
+type heldOut struct {
+	label string
+	b     []byte
+	was   string
+}
+
+var heldOuts []heldOut
+var heldMu sync.Mutex // hold is called from the goroutines of the concurrent histories too
+
+func hold(label string, b []byte) []byte {
+	heldMu.Lock()
+	defer heldMu.Unlock()
+	if len(b) > 0 && len(heldOuts) < 4000 {
+		heldOuts = append(heldOuts, heldOut{label, b, hx(b)})
+	}
+	return b
+}
+
+func heldVerdict() string {
+	for _, h := range heldOuts {
+		if hx(h.b) != h.was {
+			return "returned-value-changed-later: " + h.label
+		}
+	}
+	return "ok"
+}
 
 // Case records one case: protocol line (without id) and the implementation's canonical answer.
 func (c *Ctx) Case(class, line, implAnswer string) {
@@ -106,6 +138,7 @@ func main() {
 		classes: map[string]int{}, samples: map[string]string{}, seen: map[string]struct{}{},
 		extra: map[string]any{}}
 	gen(c)
+	c.Case("held-outputs", fmt.Sprintf("expect ok #held %d", len(heldOuts)), heldVerdict())
 	c.cases.Flush()
 	c.impl.Flush()
 	cf.Close()
